@@ -63,6 +63,20 @@ func (g *genState) pickSchema(idx int) schemaSpec {
 		return g.schemaC04(idx)
 	case "c03":
 		return g.schemaC03(idx)
+	case "c08", "c07", "c09":
+		g.vecMetric = "euclidean"
+		sc := schemaSpec{{path: "i", kind: ixInt}, {path: "t", kind: ixStr, caseSens: false}, {path: "tags", kind: ixStrArr, caseSens: true},
+			{path: "f", kind: ixFloat}, {path: "txt", kind: ixText}}
+		switch idx % 3 {
+		case 0:
+			sc = append(sc, idxSpec{path: "fv", kind: ixFlat, dim: g.dim, metric: "euclidean"})
+		case 1:
+			sc = append(sc, idxSpec{path: "fv", kind: ixFlat, dim: g.dim, metric: "euclidean", q: quantSpec{kind: 2, trigger: 3 + r.IntN(4), metric: "hamming"}})
+			sc = append(sc, idxSpec{path: "vec", kind: ixVamana, dim: g.dim, metric: "euclidean", search: 30, degree: 32, alpha: 1.2})
+		default:
+			sc = append(sc, idxSpec{path: "vec", kind: ixVamana, dim: g.dim, metric: "dot", search: 25, degree: []int{4, 8}[r.IntN(2)], alpha: 1.2})
+		}
+		return sc
 	case "c06":
 		g.vecMetric = "euclidean"
 		sc := schemaSpec{{path: "fv", kind: ixFlat, dim: g.dim, metric: "euclidean"}, {path: "txt", kind: ixText}, {path: "i", kind: ixInt},
